@@ -1410,6 +1410,10 @@ int main(int argc, char **argv)
   for (auto &s : C.typedefs_def)
     th << s << "\n";
   o << th.str();
+  // function aliases (e.g. complete-object constructor C1 = base-object constructor C2): same code, second name
+  for (GlobalAlias &GA : M->aliases())
+    if (auto *af = dyn_cast<Function>(GA.getAliaseeObject()))
+      o << "#define " << sanitize(GA.getName()) << " " << C.gname(af) << "\n";
   if (!hdrpath.empty())
   {
     std::ofstream f(hdrpath);
